@@ -46,6 +46,10 @@ var vC16Routes = []string{
 	`(let [q 9003 p 9003] (f (t 9001) (t 9002)))`,                     // caller has same-named locals
 	`(defn outer [x] (f (t (+ x 9001)) (t 9002))) (outer 1)`,          // lazy arg refers to the caller's local
 	`(f (t 9001) (t 9002) (t 9003))`,                                  // extra argument (variadic or arity error)
+	`(apply f [(quote (t 9003)) (t 9002)])`,                            // apply with a list value: already evaluated, must not run as code when forced
+	`(apply f [(quote undefinedsym) (t 9002)])`,                        // ... a symbol value
+	`(first (map (fn [e] (f e (t 9002))) [(quote (t 9003))]))`,          // map element handed on to the lazy function
+	`(apply f (list (list 9001 9002) (t 9002)))`,                       // apply with a list of arguments, the first itself a list
 	`(defn mk [a] (fn [] (f (t (+ a 9001)) (t 9002)))) (def a 1000) ((mk 7))`, // caller is a closure whose creator returned; the lazy argument mentions its captured variable
 	`(defn mk [a] (let [b (* a 2)] (fn [c] (f (t (+ (+ a b) c)) (t 9002))))) (def b 5000) ((mk 3) 9001)`, // captured let variable and own parameter
 	`(defn wrap [g] (g)) (defn mk [a] (fn [] (f (t (+ a 9001)) (t 9002)))) (wrap (mk 7))`, // the closure is called from inside another function
